@@ -168,6 +168,7 @@ def analyse_walk(program, rep, f, world):
     rep.count('paths', len(exits))
     viol = {}       # rule -> (node, why, path)
     unsure_once = []
+    unsure_closure = []
 
     # an opt-in flag (a parameter whose default is False / None): the walk
     # is complete for every call that does not set it
@@ -407,6 +408,16 @@ def analyse_walk(program, rep, f, world):
                             # (the set filtered on is the one the visited
                             # test of this walk uses)
                             extended = True
+                    if isinstance(sn, (ast.ListComp, ast.GeneratorExp)) \
+                            and len(sn.generators) == 1 and norm(
+                                sn.generators[0].iter) \
+                            == f'{popped}.__subclasses__()' and any(
+                                w_ in norm(getattr(e.node, 'value', e.node))
+                                for w_ in ('__bases__', '__mro__')):
+                        # pushed or not by the position of the popped type
+                        # among the bases: an argument about the class graph
+                        unsure_closure.append(e)
+                        extended = True
                 elif e.kind in ('yield', 'for'):
                     if e.kind == 'yield' or any(
                             w_ in e.sym.text for w_ in TABLE_WORDS):
@@ -483,6 +494,13 @@ def analyse_walk(program, rep, f, world):
         rep.inconclusive('C06.exact-first', site, loop.test,
                          'the first popped element of the work list could not '
                          'be determined', line=loop.lineno)
+    if unsure_closure and 'closure' not in viol:
+        rep.inconclusive('C06.closure', site, unsure_closure[0].node,
+                         'the subclasses pushed on the work list are chosen '
+                         'by their position in the class graph '
+                         f'({unsure_closure[0].sym.text[:90]}): that every '
+                         'subclass is still reached is not decided here',
+                         line=getattr(unsure_closure[0].node, 'lineno', None))
     if unsure_once and 'once' not in viol:
         rep.inconclusive('C06.once', site, unsure_once[0].node,
                          'the visited-set test is applied only when '
